@@ -227,7 +227,9 @@ class Marginal(Generic[R], SampleDistribution):
         bwd_request = ~self.selection
         weight = tr.project(sub_key, bwd_request)
         if self.algorithm is None:
-            return weight, latent_choices
+            # The density estimate of the selected choices is the product of *their* densities
+            # (the unselected choices are the auxiliary randomness, proposed from the prior).
+            return tr.project(sub_key, self.selection), latent_choices
         else:
             target = Target(self.gen_fn, args, latent_choices)
             other_choices = choices.filter(~self.selection)
